@@ -48,9 +48,49 @@ def rec_instances(tier, seed):
                             out.append(make_instance(0, sc, g, q, args, cls={"family": "recursion", "edge": e, "depth": d, "variant": vname, "wrap": wrap}))
     return out
 
+def tag_instances(tier, seed):
+    """one tag consumed at every combination (1..3) of use sites: same vertex, plain / optional / recursive scopes, two sibling folds,
+    a fold nested in a fold, another fold's count filter; the tag comes from the root or from an @optional scope; plus the same tag
+    twice in one fold and two tags on one property."""
+    import itertools
+    sc = VS1(); rng = random.Random(seed * 71 + 3)
+    F = lambda op: [FTag(op, "t")]
+    def build(uses, source):
+        rootprops = [prop_node("id", outputs=["rid"])]
+        edges = []
+        if source == "root": rootprops.append(prop_node("val", tags=["t"]))
+        else: edges.append(edge_node("peer", "optional", alias="src", props=[prop_node("val", tags=["t"])]))
+        if "same_vertex" in uses: rootprops.append(prop_node("id", alias="id2", filters=F(">=")))
+        if "plain" in uses: edges.append(edge_node("next", "plain", alias="p", props=[prop_node("val", outputs=["pv"], filters=F("<="))]))
+        if "optional" in uses: edges.append(edge_node("peer", "optional", alias="o", props=[prop_node("val", outputs=["ov"], filters=F(">="))]))
+        if "foldA" in uses or "nested" in uses:
+            props = [prop_node("val", outputs=["av"], filters=F("<") if "foldA" in uses else [])]
+            inner = [edge_node("next", "fold", alias="n", props=[prop_node("val", outputs=["nv"], filters=F("="))])] if "nested" in uses else []
+            edges.append(edge_node("next", "fold", alias="a", props=props, edges=inner))
+        if "foldB" in uses: edges.append(edge_node("next", "fold", alias="b", props=[prop_node("val", outputs=["bv"], filters=F(">"))]))
+        if "count" in uses: edges.append(edge_node("next", "fold", alias="c", props=[prop_node("id")], count={"filters": F(">="), "outputs": [{"name": "cc"}], "tags": []}))
+        if "recurse" in uses: edges.append(edge_node("next", "recurse", depth=2, alias="r", props=[prop_node("val", outputs=["rv"], filters=F("!="))]))
+        return edge_node("Nodes", props=rootprops, edges=edges)
+    sites = ["same_vertex", "plain", "optional", "foldA", "foldB", "nested", "count", "recurse"]
+    combos = [c for k in (1, 2, 3) for c in itertools.combinations(sites, k)]
+    out = []
+    for source in ("root", "optional"):
+        for uses in combos:
+            if tier == "quick" and len(uses) == 3 and rng.random() < 0.6: continue
+            for gi in range(1 if tier == "quick" else 3):
+                out.append(make_instance(0, sc, gen_graph(rng, sc, 5), build(set(uses), source), {}, cls={"family": "tags", "uses": list(uses), "source": source}))
+    # the same tag twice in one fold; two tags on one property, both used in one fold
+    twice = edge_node("Nodes", props=[prop_node("id", outputs=["rid"]), prop_node("val", tags=["t"])],
+                      edges=[edge_node("next", "fold", alias="a", props=[prop_node("val", outputs=["av"], filters=[FTag(">=", "t"), FTag("!=", "t")]), prop_node("id", filters=[FTag("<=", "t")])])])
+    two = edge_node("Nodes", props=[prop_node("id", outputs=["rid"]), prop_node("val", tags=["t", "u"])],
+                    edges=[edge_node("next", "fold", alias="a", props=[prop_node("val", outputs=["av"], filters=[FTag(">=", "t"), FTag("<=", "u")])])])
+    for q in (twice, two):
+        for gi in range(3): out.append(make_instance(0, sc, gen_graph(rng, sc, 5), q, {}, cls={"family": "tags", "uses": ["special"]}))
+    return out
+
 def systematic_instances(tier, seed):
     import hintfam, foldfam
-    out = rec_instances(tier, seed)
+    out = rec_instances(tier, seed) + tag_instances(tier, seed)
     h = hintfam.hint_instances(tier, seed); f = foldfam.fold_instances(tier, seed)
     out += h[::3] if tier == "quick" else h
     out += f[::5] if tier == "quick" else f[::2]
